@@ -393,6 +393,10 @@ def run(facts, rep, tier):
     _c01.rule_r7(facts, rep, rid="C10-R7")
     _c01.rule_r8(facts, rep, rid="C10-R7b")
     _c01.rule_r12(facts, rep, rid="C10-R7c")
+    rep.rule("C10-R7d", "= C07-R4: the list printers the converted note goes through write a literal blank between marker and text and pad continuation lines by the marker's width "
+             "(item 100 of a converted list must still be an item when the inverse action re-reads it).")
+    from . import c07 as _c07
+    _c07.rule_r4(facts, rep, rid="C10-R7d")
 
 class _Conv:
     """Forwards only the instances located in the list/section conversion actions."""
